@@ -7,4 +7,5 @@ import DafRel.Props.C15
 #print axioms DafRel.Props.C15.materialize_locked_adds_nothing_sql
 #print axioms DafRel.Props.C15.backtrack_stops_at_locked
 #print axioms DafRel.Props.C15.bridge_locked
+#print axioms DafRel.Props.C15.bridge_simplify_methods
 #print axioms DafRel.Props.C15.finishApply_keeps_locked_nodes
